@@ -7,3 +7,4 @@ import PycommProps.C17
 #print axioms Pycomm.C17.nth_eq_iff
 #print axioms Pycomm.C17.nth_ne_of_close
 #print axioms Pycomm.C17.sends_adjacent_differ
+#print axioms Pycomm.C17.seq_never_repeats
